@@ -120,6 +120,14 @@ class Module:
             elif isinstance(st, ast.AnnAssign) and isinstance(st.target, ast.Name) and st.value is not None:
                 self.assigns[st.target.id] = st.value
                 self.assign_nodes[st.target.id] = st
+        # imports inside function bodies resolve like module-level ones (unless shadowed at module level)
+        for n in ast.walk(self.tree):
+            if isinstance(n, ast.Import) and n not in self.tree.body:
+                for a in n.names:
+                    self.imports.setdefault(a.asname or a.name.split(".")[0], (a.name if a.asname else a.name.split(".")[0], None))
+            elif isinstance(n, ast.ImportFrom) and n not in self.tree.body and not n.level:
+                for a in n.names:
+                    self.imports.setdefault(a.asname or a.name, (n.module or "", a.name))
 
     def _add_func(self, node, cls, qual):
         fi = FuncInfo(self, qual, node, cls)
